@@ -96,6 +96,9 @@ library('rl', ['sub1/u.c'], includes=[header_directory('include')])
 def run_project(arg):
     decls, backend, ctxs = arg[:3]
     real = len(arg) > 3 and arg[3]
+    # a toolchain file is part of the saved configuration: it sets install
+    # directories (overridden on the command line) and EXTENDS a variable
+    tc = len(arg) > 4 and arg[4]
     files = sg.source_files(decls)
     files['build.bfg'] = sg.bfg_text(decls) + (
         REAL_SCRIPT if real else TRAILER + ZOO)
@@ -112,6 +115,13 @@ def run_project(arg):
         for k in ('CC', 'CXX', 'AR'):
             p.env.pop(k, None)
     os.makedirs(os.path.join(p.root, 'other'))
+    tcpath = os.path.join(p.root, 'tc.bfg')
+    if tc:
+        regen.write(tcpath, "install_dirs(prefix='/usr/cross', "
+                    "libdir='/usr/cross/lib64')\n"
+                    "environ['CPPFLAGS'] = environ.get('CPPFLAGS', '') + "
+                    "' -DCROSS'\n"
+                    "environ.setdefault('LDFLAGS', '-Lcross')\n")
     events = []
     try:
         for c in ctxs:
@@ -132,6 +142,8 @@ def run_project(arg):
             cmd = ['/venv/bin/bfg9000', 'configure-into', p.src, bd,
                    '--no-resolve-packages', '--backend=' + backend,
                    '--enable-shared', '--enable-static']
+            if tc:
+                cmd += ['--toolchain', tcpath, '--prefix', '/opt/cmd line']
             rc, out = run(cmd, cwd=cwd, env=env)
             pr, aux = digest_files(p.bld) if rc == 0 else ([], [])
             events.append({'ev': 'Run', 'ctx': c, 'exit': rc, 'primary': pr,
@@ -171,7 +183,7 @@ def main(argv):
     jobs = []
     for i, s in enumerate(scripts):
         cs = ctxs if not ck.quick else rnd.sample(ctxs, 12)
-        jobs.append((s, 'make' if i % 3 else 'ninja', cs))
+        jobs.append((s, 'make' if i % 3 else 'ninja', cs, False, i % 2 == 1))
     for b in ('make', 'ninja'):
         jobs.append(([], b, ctxs if not ck.quick else rnd.sample(ctxs, 12),
                      True))
